@@ -65,6 +65,7 @@ def run_impl(case, strategy, parts, faults, tag):
     for k in faults.get("put_always", []): st.store.fail_put_always.add(k)
     for k in faults.get("get_once", []): st.store.fail_get_once.add(k)
     for sfx in faults.get("get_always", []): st.store.fail_get_suffix.add(sfx)
+    for sfx, n in faults.get("get_n", {}).items(): st.store.fail_get_n[sfx] = n
     d = os.path.join(core.SCRATCH, f"c18_{tag}_{os.getpid()}"); shutil.rmtree(d, ignore_errors=True); os.makedirs(d)
     script = os.path.join(d, "script"); open(script, "w").write("\n".join(case) + "\n")
     env = dict(core.ENV, NVH_DIR=d, NUN_S3_API_URL=st.url(), NUN_S3_NUMBER_OF_PARTITIONS=str(parts), NUN_S3_RETRY="2")
@@ -182,7 +183,10 @@ def main(tier, seed):
     configs = [("s3", 1, {})] + [("s3_patition", p, {}) for p in (1, 3, 10)]
     fault_cfgs = [("s3", 1, {"put_once": [1]}), ("s3", 1, {"put_always": [2]}), ("s3", 1, {"get_once": [1]}),
                   ("s3_patition", 3, {"put_once": [1]}), ("s3_patition", 3, {"put_always": [1]}), ("s3_patition", 3, {"get_once": [1]}),
-                  ("s3", 1, {"get_always": ["/nun.keys"]}), ("s3", 1, {"get_always": ["/nun.values"]}), ("s3_patition", 3, {"get_always": [".nun"]})]
+                  ("s3", 1, {"get_always": ["/nun.keys"]}), ("s3", 1, {"get_always": ["/nun.values"]}), ("s3_patition", 3, {"get_always": [".nun"]}),
+                  # a download that fails three times in a row (more than the SDK retries by itself) and then works: the partitioned strategy's own retry
+                  # reads that partition again — every partition, also those read BEFORE the failing one, must still be there afterwards
+                  ("s3_patition", 3, {"get_n": {"/1.nun": 3}}), ("s3_patition", 3, {"get_n": {"/2.nun": 3}}), ("s3_patition", 10, {"get_n": {"/5.nun": 3}}), ("s3_patition", 3, {"get_n": {"/0.nun": 3}})]
     jobs = []
     for ci, c in enumerate(H):
         for (strategy, parts, faults) in configs: jobs.append((c, strategy, parts, faults, True))
@@ -214,7 +218,7 @@ def main(tier, seed):
                     if logical and logical[-1][1] == x[1] and logical[-1][2] == 500: logical[-1] = x
                     else: logical.append(x)
                 failputs = [i for i, x in enumerate(logical) if x[2] == 500]
-                if not faults.get("get_once") and not faults.get("get_always"):
+                if not faults.get("get_once") and not faults.get("get_always") and not faults.get("get_n"):
                     modelled = True
                     mout = run_model(c, ann, failputs, parts if strategy == "s3_patition" else 0)
                     norm = lambda l: "> RESET" if l.startswith("> RESET") else ("> SNAP" if l.startswith("> SNAP") else l)
